@@ -31,6 +31,7 @@ def _import_stl_ascii(path : str):
     iF = 0
     while data:
         line = data.popleft()
+        if not line: continue # blank line
         if line[0]=="solid": continue
         
         elif line[0]=="facet":
